@@ -1157,6 +1157,92 @@ func ruleCellsBounded(w *World, r *Report, pfx string) {
 				}
 			}
 		}
+		// the amount is the width of the component a private helper returns (`tip = s.nextTip(width);
+		// fillCount += tip.width`): every return of the helper is the zero component, or a component
+		// guarded inside the helper by `its width <= limit`
+		if !guarded && isZero(cnt) {
+			var call *ssa.Call
+			if ld, ok := amt.(*ssa.UnOp); ok && ld.Op == token.MUL {
+				if fa, ok := ld.X.(*ssa.FieldAddr); ok {
+					if al, ok := fa.X.(*ssa.Alloc); ok && al.Referrers() != nil {
+						nSt := 0
+						for _, ref := range *al.Referrers() {
+							if st, ok := ref.(*ssa.Store); ok && st.Addr == ssa.Value(al) {
+								nSt++
+								call, _ = st.Val.(*ssa.Call)
+							}
+						}
+						if nSt != 1 {
+							call = nil
+						}
+					}
+				}
+			}
+			if fv, ok := amt.(*ssa.Field); ok {
+				call, _ = fv.X.(*ssa.Call)
+			}
+			if call != nil {
+				if h := call.Call.StaticCallee(); h != nil && unit[h] && h.Signature.Results().Len() == 1 {
+					all, nRet := true, 0
+					for _, hb := range h.Blocks {
+						ret, ok := hb.Instrs[len(hb.Instrs)-1].(*ssa.Return)
+						if !ok || len(ret.Results) != 1 {
+							continue
+						}
+						nRet++
+						rv := ret.Results[0]
+						if c, ok := rv.(*ssa.Const); ok && c.Value == nil {
+							continue // the zero component
+						}
+						rld, ok := rv.(*ssa.UnOp)
+						if !ok || rld.Op != token.MUL {
+							all = false
+							continue
+						}
+						okRet := false
+						for _, b := range h.Blocks {
+							ifi, ok := b.Instrs[len(b.Instrs)-1].(*ssa.If)
+							if !ok {
+								continue
+							}
+							bin, ok := ifi.Cond.(*ssa.BinOp)
+							if !ok {
+								continue
+							}
+							for pol := 0; pol < 2; pol++ {
+								op, succ := bin.Op, b.Succs[0]
+								if pol == 1 {
+									op, succ = negOp(op), b.Succs[1]
+								}
+								if !(succ == hb || (succ.Dominates(hb) && len(succ.Preds) == 1)) {
+									continue
+								}
+								isW := func(v ssa.Value) bool {
+									l2, ok := v.(*ssa.UnOp)
+									if !ok || l2.Op != token.MUL {
+										return false
+									}
+									fa, ok := l2.X.(*ssa.FieldAddr)
+									return ok && sameValueExpr(fa.X, rld.X, 0)
+								}
+								if isW(bin.X) && (op == token.LEQ || op == token.LSS) && loopInvariantValue(bin.Y) {
+									okRet = true
+								}
+								if isW(bin.Y) && (op == token.GEQ || op == token.GTR) && loopInvariantValue(bin.X) {
+									okRet = true
+								}
+							}
+						}
+						if !okRet {
+							all = false
+						}
+					}
+					if all && nRet > 0 {
+						guarded = true
+					}
+				}
+			}
+		}
 		r.Check(guarded, rule, fmt.Sprintf("cell counter increment by %s", describeVal(Val{V: amt})), w.instrPos(add), "guarded by the space that is left", "the cell counter is advanced by "+describeVal(Val{V: amt})+" without a guard that this many columns are left: a component wider than the remaining width (e.g. a multi-column tip on a narrow bar) makes the body, and the row, exceed the allotted width")
 	}
 	r.Floor(rule, 3, "tip, ellipsis and the component loop(s): filler, refiller, padding")
